@@ -308,6 +308,23 @@ def run(c):
             c.violation(dict(rep, kind='loading does not return'))
         elif o[0] == 'accept' and o[1] != 'ok':
             c.violation(dict(rep, kind=f'loading succeeds but {o[1]}', detail=o[2]))
+    # inclusion worlds: files including each other (cyclically in one case out of five), missing files, shadowing, paths
+    # that are not in normal form — the real `_process_*_node_include` must answer with a result or a configuration error
+    import random as _random
+    from harness import genfront
+    rndw = _random.Random(c.seed * 7919 + 17)
+    nw = 400 if thorough else 80
+    for wi in range(nw):
+        kind = rndw.choice(genfront.KINDS3 + genfront.KINDS2)
+        node, dirs, ign = genfront.gen_include_world(rndw, kind, p_acyclic=0.4)
+        w = hfront.World(dirs, ign, with_pkg=False, version=2 if kind.endswith('2') else 3)
+        w.materialise(os.path.join(work, f'incw{wi}'))
+        r = hfront.real_include(kind, hfront.to_od(node), w)
+        st['inclusion_worlds'] += 1
+        st['inclusion_' + r[0]] += 1
+        if r[0] not in ('ok', 'err'):
+            c.violation({'property': 'C10', 'kind': f'inclusion processing raises {r[1]} instead of a configuration error',
+                         'include_kind': kind, 'node': node, 'dirs': dirs, 'ignore_missing': ign, 'detail': str(r[2])[-400:]})
     # model vs implementation on the structural mutants the model can read
     pk2, pk3 = hfront.pkg_dir_files(2), hfront.pkg_dir_files(3)
     lines, idx = [], []
